@@ -10,6 +10,9 @@ over every kernel expression (any nesting), all points (lists of any length), al
 parameters, all batch sizes and all batch partitions.
 -/
 import SharkVerif.Lemmas.Kernels
+import SharkVerif.Lemmas.KernelsPSD
+import Mathlib.Analysis.Real.Sqrt
+import Mathlib.Analysis.SpecialFunctions.Exp
 set_option linter.unusedSectionVars false
 namespace SharkVerif.C05
 open SharkVerif.Kernels
@@ -298,4 +301,279 @@ theorem kernel_gram_symm (k : Kern K) (reg : K) (batches : List (Mat K)) (r c : 
   · rw [if_neg h, if_neg (Ne.symm h), k_symm]
 
 end field
+end SharkVerif.C05
+
+namespace SharkVerif.C05
+open SharkVerif.Kernels
+
+/-! ## 4. Normalised kernels have unit diagonal; feature-space distance -/
+section ordered
+variable {K : Type} [Field K] [LinearOrder K] [IsStrictOrderedRing K] (exp sqrt : K → K)
+
+/-- **normalized_diag_one** — `NormalizedKernel(k)(x,x) = 1` whenever `k(x,x) > 0`
+(`sqrt` is any function that is a square root on non-negative arguments). -/
+theorem normalized_diag_one (hsqrt : ∀ a : K, 0 ≤ a → sqrt a * sqrt a = a) (k : Kern K) (x : Point K)
+    (hpos : 0 < k.eval exp sqrt x x) : (Kern.normalized k).eval exp sqrt x x = 1 := by
+  simp only [Kern.eval]
+  rw [div_div, hsqrt _ hpos.le, div_self (ne_of_gt hpos)]
+
+/-- without positivity the claim fails: with `k(x,x) = 0` (linear kernel at the zero vector)
+the normalised kernel evaluates `0/0`, which is `0` in a field with total division (NaN in IEEE) -/
+theorem normalized_diag_one_needs_pos (hs0 : sqrt 0 = 0) :
+    (Kern.normalized (.linear : Kern K)).eval exp sqrt [0] [0] ≠ 1 := by
+  simp [Kern.eval, dot, hs0]
+
+mutual
+/-- every `NormalizedKernel` node that contributes to the `IS_NORMALIZED` flag of `k`
+has a positive base diagonal at `x` -/
+def DiagPos : Kern K → Point K → Prop
+  | .normalized b, x => 0 < b.eval exp sqrt x x
+  | .prod ks, x => DiagPosList ks x
+  | _, _ => True
+def DiagPosList : List (Kern K) → Point K → Prop
+  | [], _ => True
+  | k :: ks, x => DiagPos k x ∧ DiagPosList ks x
+end
+
+mutual
+/-- **isNormalized_diag_one** — whenever a kernel *claims* to be normalised (`IS_NORMALIZED` flag:
+Gaussian, ARD, normalised, products of such), `k(x,x) = 1`. -/
+theorem isNormalized_diag_one (hexp : exp 0 = 1) (hsqrt : ∀ a : K, 0 ≤ a → sqrt a * sqrt a = a) :
+    ∀ (k : Kern K) (x : Point K), k.isNormalized = true → DiagPos exp sqrt k x → k.eval exp sqrt x x = 1
+  | .linear, _, hn, _ => by simp [Kern.isNormalized] at hn
+  | .poly _ _, _, hn, _ => by simp [Kern.isNormalized] at hn
+  | .monomial _, _, hn, _ => by simp [Kern.isNormalized] at hn
+  | .gauss g, x, _, _ => by simp [Kern.eval, distSqr_self, hexp]
+  | .ard gs, x, _, _ => by simp [Kern.eval, mahal_self, hexp]
+  | .normalized b, x, _, h => by
+      simp only [DiagPos] at h
+      exact normalized_diag_one exp sqrt hsqrt b x h
+  | .scaled _ _, _, hn, _ => by simp [Kern.isNormalized] at hn
+  | .wsum _ _ _, _, hn, _ => by simp [Kern.isNormalized] at hn
+  | .prod ks, x, hn, h => by
+      simp only [Kern.isNormalized] at hn
+      simp only [DiagPos] at h
+      simp only [Kern.eval]
+      exact pfold_all_one hexp hsqrt ks x hn h
+  | .subrange _ _ _, _, hn, _ => by simp [Kern.isNormalized] at hn
+theorem pfold_all_one (hexp : exp 0 = 1) (hsqrt : ∀ a : K, 0 ≤ a → sqrt a * sqrt a = a) :
+    ∀ (ks : List (Kern K)) (x : Point K), allNormalized ks = true → DiagPosList exp sqrt ks x →
+      pfold (evalList exp sqrt ks x x) 1 = 1
+  | [], _, _, _ => by simp [evalList, pfold]
+  | k :: ks, x, hn, h => by
+      simp only [allNormalized, Bool.and_eq_true] at hn
+      simp only [DiagPosList] at h
+      simp only [evalList, pfold]
+      rw [isNormalized_diag_one hexp hsqrt k x hn.1 h.1, mul_one]
+      exact pfold_all_one hexp hsqrt ks x hn.2 h.2
+end
+
+/-- **featureDistance_def** — `featureDistanceSqr(x,z) = k(x,x) − 2 k(x,z) + k(z,z)` for every kernel
+expression, including the `IS_NORMALIZED` shortcut `2 − 2k(x,z)` and `LinearKernel`'s override
+`‖x−z‖²` (equal sizes are the C++ `SIZE_CHECK`). -/
+theorem featureDistance_def (hexp : exp 0 = 1) (hsqrt : ∀ a : K, 0 ≤ a → sqrt a * sqrt a = a)
+    (k : Kern K) (x z : Point K) (hlen : x.length = z.length)
+    (hx : DiagPos exp sqrt k x) (hz : DiagPos exp sqrt k z) :
+    k.featureDistanceSqr exp sqrt x z =
+      k.eval exp sqrt x x - two * k.eval exp sqrt x z + k.eval exp sqrt z z := by
+  have main : ∀ k : Kern K, DiagPos exp sqrt k x → DiagPos exp sqrt k z →
+      (if k.isNormalized then two - two * k.eval exp sqrt x z
+       else k.eval exp sqrt x x - two * k.eval exp sqrt x z + k.eval exp sqrt z z) =
+      k.eval exp sqrt x x - two * k.eval exp sqrt x z + k.eval exp sqrt z z := by
+    intro k hx hz
+    by_cases hn : k.isNormalized = true
+    · rw [if_pos hn, isNormalized_diag_one exp sqrt hexp hsqrt k x hn hx,
+        isNormalized_diag_one exp sqrt hexp hsqrt k z hn hz]
+      simp only [two]; ring
+    · rw [if_neg hn]
+  cases k with
+  | linear =>
+    simp only [Kern.featureDistanceSqr, Kern.eval]
+    exact distSqr_expand x z hlen
+  | poly d c => simpa [Kern.featureDistanceSqr] using main (.poly d c) hx hz
+  | monomial n => simpa [Kern.featureDistanceSqr] using main (.monomial n) hx hz
+  | gauss g => simpa [Kern.featureDistanceSqr] using main (.gauss g) hx hz
+  | ard gs => simpa [Kern.featureDistanceSqr] using main (.ard gs) hx hz
+  | normalized b => simpa [Kern.featureDistanceSqr] using main (.normalized b) hx hz
+  | scaled f b => simpa [Kern.featureDistanceSqr] using main (.scaled f b) hx hz
+  | wsum ws s ks => simpa [Kern.featureDistanceSqr] using main (.wsum ws s ks) hx hz
+  | prod ks => simpa [Kern.featureDistanceSqr] using main (.prod ks) hx hz
+  | subrange a b k => simpa [Kern.featureDistanceSqr] using main (.subrange a b k) hx hz
+
+end ordered
+end SharkVerif.C05
+
+namespace SharkVerif.C05
+open SharkVerif.Kernels
+
+/-! ## 5. Positive semi-definiteness (over ℝ, Mathlib's `Matrix.PosSemidef`)
+
+`IsPSD κ` (Lemmas/KernelsPSD.lean): every finite Gram matrix of `κ` is positive semidefinite.
+`exp`/`sqrt` are arbitrary functions; PSD-ness of the Gaussian and ARD *leaves* is an explicit
+hypothesis (`Admissible` carries it), everything else is proved. -/
+section psd
+variable (exp sqrt : ℝ → ℝ)
+
+/-- **linear_psd** — Gram matrices of the linear kernel are PSD (`X·Xᵀ`), any point lengths. -/
+theorem linear_psd : IsPSD ((Kern.linear : Kern ℝ).eval exp sqrt) :=
+  dot_psd.congr fun x z => by simp only [Kern.eval]
+
+/-- closure lemmas, in kernel-function form -/
+theorem psd_add {P : Type} {κ₁ κ₂ : P → P → ℝ} (h₁ : IsPSD κ₁) (h₂ : IsPSD κ₂) :
+    IsPSD (fun x z => κ₁ x z + κ₂ x z) := h₁.add h₂
+theorem psd_smul_nonneg {P : Type} {κ : P → P → ℝ} (h : IsPSD κ) {a : ℝ} (ha : 0 ≤ a) :
+    IsPSD (fun x z => a * κ x z) := h.smul ha
+/-- Schur product -/
+theorem psd_hadamard {P : Type} {κ₁ κ₂ : P → P → ℝ} (h₁ : IsPSD κ₁) (h₂ : IsPSD κ₂) :
+    IsPSD (fun x z => κ₁ x z * κ₂ x z) := h₁.mul h₂
+theorem psd_normalized (k : Kern ℝ) (h : IsPSD (k.eval exp sqrt)) :
+    IsPSD ((Kern.normalized k).eval exp sqrt) :=
+  (h.normalize fun x => sqrt (k.eval exp sqrt x x)).congr fun x z => by simp only [Kern.eval]
+theorem psd_subrange (a b : Nat) (k : Kern ℝ) (h : IsPSD (k.eval exp sqrt)) :
+    IsPSD ((Kern.subrange a b k).eval exp sqrt) :=
+  (h.comap (slice a b)).congr fun x z => by simp only [Kern.eval]
+
+mutual
+/-- parameters in their admissible range: polynomial offset ≥ 0, scaling factor ≥ 0, weights ≥ 0,
+weight sum ≥ 0; for Gaussian / ARD leaves PSD-ness itself is the (unproved) hypothesis `GaussianPSD`. -/
+def Admissible : Kern ℝ → Prop
+  | .linear => True
+  | .poly _ c => 0 ≤ c
+  | .monomial _ => True
+  | .gauss g => IsPSD fun x z : Point ℝ => exp (-g * distSqr z x)
+  | .ard gs => IsPSD fun x z : Point ℝ => exp (-(mahal gs x z))
+  | .normalized k => Admissible k
+  | .scaled f k => 0 ≤ f ∧ Admissible k
+  | .wsum ws s ks => (∀ w ∈ ws, 0 ≤ w) ∧ 0 ≤ s ∧ AdmissibleList ks
+  | .prod ks => AdmissibleList ks
+  | .subrange _ _ k => Admissible k
+def AdmissibleList : List (Kern ℝ) → Prop
+  | [] => True
+  | k :: ks => Admissible k ∧ AdmissibleList ks
+end
+
+mutual
+/-- **kernel_psd** — every kernel expression with admissible parameters is positive semi-definite:
+linear, polynomial, monomial kernels outright; scaled, weighted-sum, product, normalised and sub-range
+kernels over PSD bases; Gaussian/ARD leaves by hypothesis. Structural induction. -/
+theorem kernel_psd : ∀ (k : Kern ℝ), Admissible exp k → IsPSD (k.eval exp sqrt)
+  | .linear, _ => linear_psd exp sqrt
+  | .poly d c, h => by
+      simp only [Admissible] at h
+      exact ((dot_psd.add (IsPSD.const h)).pow d).congr fun x z => by
+        simp only [Kern.eval, powNat_eq_pow]
+  | .monomial n, _ => (dot_psd.pow n).congr fun x z => by simp only [Kern.eval, powNat_eq_pow]
+  | .gauss g, h => by
+      simp only [Admissible] at h
+      exact h.congr fun x z => by simp only [Kern.eval]
+  | .ard gs, h => by
+      simp only [Admissible] at h
+      exact h.congr fun x z => by simp only [Kern.eval]
+  | .normalized k, h => by
+      simp only [Admissible] at h
+      exact psd_normalized exp sqrt k (kernel_psd k h)
+  | .scaled f k, h => by
+      simp only [Admissible] at h
+      exact ((kernel_psd k h.2).smul h.1).congr fun x z => by simp only [Kern.eval]
+  | .wsum ws s ks, h => by
+      simp only [Admissible] at h
+      have hfs : ∀ f ∈ ks.map (fun k => k.eval exp sqrt), IsPSD f := kernelList_psd ks h.2.2
+      have := (wfold_psd ws (ks.map fun k => k.eval exp sqrt) (fun _ _ => 0) h.1 hfs IsPSD.zero).smul
+        (inv_nonneg.mpr h.2.1)
+      exact this.congr fun x z => by
+        simp only [Kern.eval, evalList_eq_map, List.map_map, Function.comp_def, div_eq_mul_inv]; ring
+  | .prod ks, h => by
+      simp only [Admissible] at h
+      have hfs : ∀ f ∈ ks.map (fun k => k.eval exp sqrt), IsPSD f := kernelList_psd ks h
+      have := pfold_psd (ks.map fun k => k.eval exp sqrt) (fun _ _ => 1) hfs (IsPSD.const zero_le_one)
+      exact this.congr fun x z => by
+        simp only [Kern.eval, evalList_eq_map, List.map_map, Function.comp_def]
+  | .subrange a b k, h => by
+      simp only [Admissible] at h
+      exact psd_subrange exp sqrt a b k (kernel_psd k h)
+theorem kernelList_psd : ∀ (ks : List (Kern ℝ)), AdmissibleList exp ks →
+    ∀ f ∈ ks.map (fun k => k.eval exp sqrt), IsPSD f
+  | [], _ => by simp
+  | k' :: ks, h => by
+      simp only [AdmissibleList] at h
+      intro f hf
+      simp only [List.map_cons, List.mem_cons] at hf
+      rcases hf with rfl | hf
+      · exact kernel_psd k' h.1
+      · exact kernelList_psd ks h.2 f hf
+end
+
+/-- quadratic-form reading: `∑ᵢ ∑ⱼ cᵢ cⱼ k(xᵢ,xⱼ) ≥ 0` for all finite point families and coefficients -/
+theorem kernel_quadForm_nonneg (k : Kern ℝ) (h : Admissible exp k) (n : ℕ) (x : Fin n → Point ℝ)
+    (c : Fin n → ℝ) : 0 ≤ ∑ i, ∑ j, c i * c j * k.eval exp sqrt (x i) (x j) :=
+  (kernel_psd exp sqrt k h).quadForm_nonneg n x c
+
+/-- **gram_psd** — the matrix assembled by `calculateRegularizedKernelMatrix` over ANY batch partition,
+with regulariser `reg ≥ 0`, is `Matrix.PosSemidef` (so: symmetric, no negative eigenvalue). -/
+theorem gram_psd (k : Kern ℝ) (h : Admissible exp k) (reg : ℝ) (hreg : 0 ≤ reg) (batches : List (Mat ℝ)) :
+    (Matrix.of fun (r c : Fin batches.flatten.length) =>
+      regularizedGram (k.evalBlock exp sqrt) reg batches r c).PosSemidef := by
+  have e : (Matrix.of fun (r c : Fin batches.flatten.length) =>
+      regularizedGram (k.evalBlock exp sqrt) reg batches r c) =
+      (Matrix.of fun (r c : Fin batches.flatten.length) =>
+        k.eval exp sqrt (batches.flatten[r]) (batches.flatten[c])) + reg • (1 : Matrix _ _ ℝ) := by
+    ext r c
+    rw [Matrix.of_apply, kernel_gram_assembly_correct exp sqrt k reg batches r c r.2 c.2]
+    by_cases hrc : r = c
+    · subst hrc; simp
+    · have : (r : ℕ) ≠ c := fun h => hrc (Fin.ext h)
+      simp [this, Matrix.one_apply_ne hrc]
+  rw [e]
+  exact (kernel_psd exp sqrt k h _ _).add (Matrix.PosSemidef.one.smul hreg)
+
+end psd
+end SharkVerif.C05
+
+/-! ## Non-vacuity: the hypotheses of the theorems above are satisfiable (and hold for the
+real `exp`/`sqrt` and for concrete kernels the correspondence exercises) -/
+namespace SharkVerif.C05
+open SharkVerif.Kernels
+
+/-- the real square root satisfies the `sqrt` hypothesis -/
+theorem real_sqrt_spec : ∀ a : ℝ, 0 ≤ a → Real.sqrt a * Real.sqrt a = a := fun _ h => Real.mul_self_sqrt h
+
+/-- `normalized_diag_one` is not vacuous: `NormalizedKernel(LinearKernel)` at `x = (1,2)` -/
+example : (Kern.normalized (.linear : Kern ℝ)).eval Real.exp Real.sqrt [1, 2] [1, 2] = 1 :=
+  normalized_diag_one Real.exp Real.sqrt real_sqrt_spec .linear [1, 2] (by norm_num [Kern.eval, dot])
+
+/-- `isNormalized_diag_one` / `featureDistance_def` are not vacuous:
+`ProductKernel(Gaussian(1/2), Normalized(Polynomial(2, 1)))`, which claims `IS_NORMALIZED` -/
+example : (Kern.prod [.gauss (1/2), .normalized (.poly 2 1)] : Kern ℝ).eval Real.exp Real.sqrt [1, 2] [1, 2] = 1 :=
+  isNormalized_diag_one Real.exp Real.sqrt Real.exp_zero real_sqrt_spec _ _
+    (by simp [Kern.isNormalized, allNormalized])
+    (by simp only [DiagPos, DiagPosList, Kern.eval, dot, powNat]; norm_num)
+
+example : (Kern.prod [.gauss (1/2), .normalized (.poly 2 1)] : Kern ℝ).featureDistanceSqr Real.exp Real.sqrt [1, 2] [3, -1] =
+    (Kern.prod [.gauss (1/2), .normalized (.poly 2 1)] : Kern ℝ).eval Real.exp Real.sqrt [1, 2] [1, 2]
+      - two * (Kern.prod [.gauss (1/2), .normalized (.poly 2 1)] : Kern ℝ).eval Real.exp Real.sqrt [1, 2] [3, -1]
+      + (Kern.prod [.gauss (1/2), .normalized (.poly 2 1)] : Kern ℝ).eval Real.exp Real.sqrt [3, -1] [3, -1] :=
+  featureDistance_def Real.exp Real.sqrt Real.exp_zero real_sqrt_spec _ _ _ rfl
+    (by simp only [DiagPos, DiagPosList, Kern.eval, dot, powNat]; norm_num)
+    (by simp only [DiagPos, DiagPosList, Kern.eval, dot, powNat]; norm_num)
+
+/-- `kernel_psd` is not vacuous: a composed kernel without Gaussian leaves needs no hypothesis at all -/
+example : IsPSD ((Kern.normalized (.wsum [1, 2] 3 [.linear, .scaled (1/2) (.prod [.poly 3 1, .subrange 0 1 (.monomial 2)])]) : Kern ℝ).eval
+    Real.exp Real.sqrt) :=
+  kernel_psd Real.exp Real.sqrt _ (by
+    simp only [Admissible, AdmissibleList, List.mem_cons, List.not_mem_nil, or_false, forall_eq_or_imp, forall_eq]
+    norm_num)
+
+/-- the `GaussianPSD` hypothesis is satisfiable (trivially at `γ = 0`, where the kernel is constant 1;
+for `γ > 0` it is the classical theorem that is *not* proved here) -/
+example : Admissible Real.exp (.gauss 0) := by
+  simp only [Admissible]
+  exact (IsPSD.const (P := Point ℝ) zero_le_one).congr fun x z => by simp
+
+/-- `gram_assembly_correct` at a concrete partition: 3 points in batches of sizes (2,1) and (1,2) -/
+example : ∀ r c, r < 3 → c < 3 →
+    regularizedGram ((Kern.poly 2 1 : Kern ℚ).evalBlock id id) (1/2) [[[1], [2]], [[3]]] r c =
+    regularizedGram ((Kern.poly 2 1 : Kern ℚ).evalBlock id id) (1/2) [[[1]], [[2], [3]]] r c :=
+  fun r c hr hc => kernel_gram_partition_independent id id (.poly 2 1) (1/2)
+    [[[1], [2]], [[3]]] [[[1]], [[2], [3]]] rfl r c hr hc
+
 end SharkVerif.C05
